@@ -10,7 +10,7 @@ ORACLES = ("csscolor",)
 RULE = ("hex: all 2^24 '#rrggbb' (thorough) / 2^20 stratified (quick) with upper-case and '#'-less variants on a sample, all 4096 '#rgb' x "
         "{lower, upper, no-#}; all 148 keywords x 6 case/padding variants; grammar-generated rgb()/rgba()/hsl()/hsla() strings: integer and "
         "percentage components with 0-6 fraction digits, leading zeros, '.5', explicit '+', hue in [-1080,1440] incl. sector boundaries "
-        "+-1e-6, s/l at 0/50/100%, alpha at 0/1/adjacent decimals, whitespace from {'',' ','\\t','\\n'} at every legal slot, function name in "
+        "+-1e-6 and multiples of 360 missed by 1e-14..1e-22, s/l at 0/50/100%, alpha at 0/1/adjacent decimals, whitespace from {'',' ','\\t','\\n'} at every legal slot, function name in "
         "three cases, random opaque backgrounds. Oracle: exact-rational CSS Color 3 reader; opaque: each channel in the accepted nearest set "
         "(both neighbours at a tie); translucent: within 1.5 of the exact blend; equivalent spellings give identical results; Color(s).rgb "
         "equals parse_color_to_rgb(s). Non-trivial = every distinct string judged.")
